@@ -747,6 +747,10 @@ type Trace struct {
 	CornerR     int // coefficients of w - c s2 (over all attempts) in that corner
 	HintWeight  int // weight of the accepted hint
 	BallRejects int // rejected bytes in SampleInBall over all attempts
+	// Attempts refused only because one norm sat exactly on its bound (every other condition
+	// held): the inputs on which a >= / > slip in the signer changes the signature.
+	ZBoundOnly  int
+	R0BoundOnly int
 }
 
 // SignMode selects what the signing loop accepts.
@@ -831,11 +835,27 @@ func SignInternalMode(p *Params, sk, mp, rnd []byte, mode SignMode) ([]byte, *Tr
 		if rn == int64(p.Gamma2)-beta {
 			tr.R0AtBound++
 		}
-		zBad := zn >= int64(p.Gamma1)-beta
+		zBadHonest := zn >= int64(p.Gamma1)-beta
+		zBad := zBadHonest
 		if mode.ZNorm > 0 {
 			zBad = zn != mode.ZNorm
 		}
 		rBad := rn >= int64(p.Gamma2)-beta
+		// late part of the loop body: c t0 and the hint
+		late := func() (h []*Poly, weight int, cBad, hBad bool) {
+			ct0 := make([]*Poly, p.K)
+			h = make([]*Poly, p.K)
+			for i := 0; i < p.K; i++ {
+				ct0[i] = InvNTT(MulNTT(ch, t0h[i]))
+				h[i] = new(Poly)
+				for j := 0; j < N; j++ {
+					// MakeHint(-ct0, w - cs2 + ct0)
+					h[i][j] = MakeHint(p.Gamma2, -ct0[i][j], wcs2[i][j]+ct0[i][j])
+					weight += int(h[i][j])
+				}
+			}
+			return h, weight, vecInfNorm(ct0) >= int64(p.Gamma2), weight > p.Omega
+		}
 		if zBad || rBad {
 			if zBad {
 				tr.RejZ++
@@ -843,22 +863,22 @@ func SignInternalMode(p *Params, sk, mp, rnd []byte, mode SignMode) ([]byte, *Tr
 			if rBad {
 				tr.RejR0++
 			}
+			if mode.ZNorm == 0 {
+				nearZ := zn == int64(p.Gamma1)-beta && rn < int64(p.Gamma2)-beta
+				nearR := rn == int64(p.Gamma2)-beta && zn < int64(p.Gamma1)-beta
+				if nearZ || nearR {
+					if _, _, cBad, hBad := late(); !cBad && !hBad {
+						if nearZ {
+							tr.ZBoundOnly++
+						} else {
+							tr.R0BoundOnly++
+						}
+					}
+				}
+			}
 			continue
 		}
-		ct0 := make([]*Poly, p.K)
-		h := make([]*Poly, p.K)
-		weight := 0
-		for i := 0; i < p.K; i++ {
-			ct0[i] = InvNTT(MulNTT(ch, t0h[i]))
-			h[i] = new(Poly)
-			for j := 0; j < N; j++ {
-				// MakeHint(-ct0, w - cs2 + ct0)
-				h[i][j] = MakeHint(p.Gamma2, -ct0[i][j], wcs2[i][j]+ct0[i][j])
-				weight += int(h[i][j])
-			}
-		}
-		cBad := vecInfNorm(ct0) >= int64(p.Gamma2)
-		hBad := weight > p.Omega
+		h, weight, cBad, hBad := late()
 		if cBad || hBad {
 			if cBad {
 				tr.RejCt0++
